@@ -9,6 +9,7 @@ import (
 	"time"
 
 	"github.com/ErdemOzgen/blackdagger/internal/dag"
+	"github.com/ErdemOzgen/blackdagger/internal/dag/executor"
 	"github.com/ErdemOzgen/blackdagger/internal/logger"
 )
 
@@ -182,8 +183,13 @@ func (sc *Scheduler) Schedule(ctx context.Context, g *ExecutionGraph, done chan 
 
 			ExecRepeat:
 				for setupSucceed && !sc.isCanceled() {
-					executed = true
 					execErr := sc.execNode(ctx, node)
+					if !errors.Is(execErr, errCanceledBeforeStart) &&
+						!errors.Is(execErr, executor.ErrKilledBeforeStart) {
+						// (a step that was stopped before its command
+						// started has executed nothing)
+						executed = true
+					}
 					if execErr != nil {
 						status := node.State().Status
 						switch {
@@ -234,6 +240,11 @@ func (sc *Scheduler) Schedule(ctx context.Context, g *ExecutionGraph, done chan 
 						}
 					}
 					if execErr != nil && done != nil {
+						if !executed && prevLog != "" {
+							// stopped before this retry started anything: what the
+							// step printed is in the log of its last attempt
+							node.setLog(prevLog)
+						}
 						done <- node
 						return
 					}
